@@ -89,7 +89,7 @@ impl Vm {
         &&& forall|i: int, j: int| 0 <= i < self.range_cache@.len() && 0 <= j < self.range_cache@.len() && (#[trigger] self.range_cache@[i]).0.id() == (#[trigger] self.range_cache@[j]).0.id() ==> i == j
     }
 
-    //@fn file=yarel/src/vm.rs path=Vm::build_range ret=r props=C16,C18
+    //@fn file=yarel/src/vm.rs path=Vm::build_range ret=r props=C16,C18,C05
     //@  subst "self .range_cache .iter() .find(|&(r, _)| r.begin == begin && r.end == end)" => "cache_find(&self.range_cache, begin, end)"
     //@  subst "self .range_cache .iter() .enumerate() .max_by(|first, second| first.1 .1.elapsed().cmp(&second.1 .1.elapsed())) .map(|e| e.0) .expect(\"Expect to find max given non-empty Vec.\")" => "cache_oldest(&self.range_cache)"
     //@  subst "time::Instant::now()" => "instant_now()"
